@@ -137,6 +137,7 @@ func (v *FnVC) callCommon(c *ssa.CallCommon, val ssa.Value, pos token.Pos, how s
 		k++
 		for j, cj := range v.flatten(cl.E) {
 			t := v.specBoolE(cj, cenv, cl)
+			v.behavClause = false
 			v.oblige("pre@call:"+site, v.clauseLabel(cl, k-1, j), t, nil, true, cj.String(), pos)
 		}
 	}
